@@ -20,6 +20,15 @@ try:
 except Exception as _ex:  # the generator itself broke: same fallback as an unparseable source
     BODIES_STATUS = "unparsed generator-failed: %s" % str(_ex)[:200]
 
+# round 4: the remaining hand transcriptions (clone / clone_from, in-place operators, from_parts_const with its loop, parse.rs,
+# convert.rs, the one-line wrappers, num-traits forwarding, serde Deserialize) are regenerated into coq/gen/RatioBodies4.v,
+# group by group (an unparseable group keeps its last good text, marked STALE, and is reported; the others stay regenerated).
+try:
+    import translate_c04_r4
+    BODIES4_STATUS = translate_c04_r4.generate(core.REPO, os.path.join(core.COQ, "gen"))
+except Exception as _ex:
+    BODIES4_STATUS = {"all": "unparsed generator-failed: %s" % str(_ex)[:200]}
+
 # a run against a scratch checkout (VERIF_REPO) must not leave that checkout's bodies in a shared tree
 if os.path.realpath(core.REPO) != os.path.realpath("/repo") and os.path.realpath(core.COQ) == os.path.realpath(os.path.join(core.ROOT, "coq")):
     import atexit
@@ -29,17 +38,65 @@ if os.path.realpath(core.REPO) != os.path.realpath("/repo") and os.path.realpath
             translate_c04_r3.generate("/repo", os.path.join(core.COQ, "gen"))
         except Exception:
             pass
+        try:
+            translate_c04_r4.generate("/repo", os.path.join(core.COQ, "gen"))
+        except Exception:
+            pass
 
     atexit.register(_restore_bodies)
 
 
+def operator_rows():
+    """every impl_binop_with_macro! / impl_binop_with_int! / impl_binop_assign_by_taking! row of rational/src/{add,mul,div}.rs as
+    (row name = name of the regenerated definition, case prefix, forms); rows this plug-in has no case shape for are returned apart"""
+    rows, unmapped = [], []
+    BIN = {"Add": "add", "Sub": "sub", "Mul": "mul", "Div": "div", "Rem": "rem", "DivEuclid": "dive", "RemEuclid": "reme", "DivRemEuclid": "divreme"}
+    try:
+        for fname in ("add.rs", "mul.rs", "div.rs"):
+            src = translate_c04_r3.strip_comments(translate_c04_r3.read(core.REPO, "rational/src/" + fname))
+            for kind, trait, left, right, _meth, _macro in translate_c04_r3.invocations(src):
+                if trait not in BIN:
+                    unmapped.append("%s:%s:%s" % (trait, left, right))
+                    continue
+                if kind == "bin":
+                    rows.append(("gen_%s_%s" % (trait, left), ("r" if left == "RBig" else "x") + BIN[trait], None))
+                elif trait in ("Add", "Sub", "Mul", "Div"):
+                    if kind == "ri":
+                        rows.append(("gen_%s_%s_%s" % (trait, left, right), ("r" if left == "RBig" else "x") + BIN[trait] + "i", "u" if right == "UBig" else "i"))
+                    else:
+                        rows.append(("gen_%s_%s_%s" % (trait, left, right), ("r" if right == "RBig" else "x") + "i" + BIN[trait], "u" if left == "UBig" else "i"))
+                else:
+                    unmapped.append("%s:%s:%s" % (trait, left, right))
+            for m in translate_c04_r4.ASSIGN_INV.finditer(src):
+                tra, ty, _ma, meth = m.groups()
+                if meth in ("add", "sub", "mul", "div", "rem"):
+                    rows.append(("gen_%s_%s" % (tra, ty), ("r" if ty == "RBig" else "x") + meth, "assign"))
+                else:
+                    unmapped.append("%s:%s" % (tra, ty))
+    except Exception as ex:
+        unmapped.append("rows-unreadable:%s" % str(ex)[:60])
+    return rows, unmapped
+
+
 def extra_phase(tier, seed, exes, oracle):
     word = BODIES_STATUS.split(" ", 1)[0]
+    hist = {"translator_c04_r3:RatioBodies:" + word: 1}
+    for g, st in sorted(BODIES4_STATUS.items()):
+        hist["TRANSLATOR_C04_R4:%s:%s" % (g, st.split(" ", 1)[0])] = 1
+    rows, unmapped = operator_rows()
+    hist["ROWS:swept-by-the-generator"] = len(rows)
+    for u in unmapped:
+        hist["ROWS:no-case-shape:" + u] = 1
+    bad4 = {g: st for g, st in BODIES4_STATUS.items() if st != "ok"}
     return {
         "evaluations": 0,
-        "hist": {"translator_c04_r3:RatioBodies:" + word: 1},
+        "hist": hist,
         "nontrivial": [],
-        "samples": [{"fragment": "coq/gen/RatioBodies.v (tools/translate_c04_r3.py from rational/src/{repr,rbig,sign,round,add,mul,div,helper_macros,lib}.rs)",
+        "samples": [{"fragment": "coq/gen/RatioBodies4.v (tools/translate_c04_r4.py from rational/src/{repr,rbig,add,mul,div,sign,round,parse,convert}.rs, third_party/{num_traits,serde}.rs)",
+                     "status": "ok" if not bad4 else "; ".join("%s: %s" % kv for kv in sorted(bad4.items())),
+                     "tied_by": "C04_r4_* theorems (stated over the generated definitions)" if not bad4
+                     else "groups not parsed: correspondence run only (last good text kept, marked STALE)"},
+                    {"fragment": "coq/gen/RatioBodies.v (tools/translate_c04_r3.py from rational/src/{repr,rbig,sign,round,add,mul,div,helper_macros,lib}.rs)",
                      "status": BODIES_STATUS,
                      "tied_by": "C04_gen_* theorems (stated over the generated definitions)" if word == "ok"
                      else "correspondence run only (source not parsed; committed copy marked STALE)"}],
@@ -64,36 +121,61 @@ LEVEL_TEXT = ("Machine-checked Coq theorems for all operands (no size bound). (i
               "positive denominator and the same value, in lock step with RBig along every history, and never keeps a common factor two. "
               "(ii) Repr::reduce2 is additionally modelled on the typed magnitudes (inline double word / heap word list, any word size: word scan for "
               "trailing_zeros, shr with carries, floor correction for a negative numerator) and proved equal to the value-level body. "
-              "(iii) Hand transcriptions proved for all inputs: the const gcd loop of from_parts_const with its fuel bound, the parsers, the exact "
-              "conversions (integers: n/1; f32/f64 from the decoded mantissa/exponent on: reduce2 of a dyadic is the canonical form). "
+              "(iii) Round 4 - the former hand transcriptions are REGENERATED too (coq/gen/RatioBodies4.v, eight groups with separate fall-back): "
+              "Clone for Repr/RBig/Relaxed (clone_from = the source whatever the destination held), Default, the impl_binop_assign_by_taking! rows "
+              "(+=, -=, *=, /=, %= are the operators; a panic leaves Default behind), RBig::from_parts_const WITH its while loop (translated to a fuelled "
+              "iterator; theorem: with the fuel 2*log2(d)+3 the loop ends and the result is the canonical rational) and Relaxed::from_parts_const, "
+              "parse.rs (Repr::from_str_radix / from_str_with_radix_prefix, the RBig / Relaxed wrappers, FromStr; the integer parsers of dashu-int on "
+              "the pieces of the text are parameters: for ANY integer parser the result is parse_radix_spec / parse_prefix_spec - numerator's error "
+              "first, then the denominator's, then differing radices, then the zero denominator, else the canonical rational), convert.rs "
+              "(From<UBig/IBig/12 primitive types> = n/1, TryFrom<RBig/Relaxed> for IBig/UBig succeeds exactly on a stored n/1 and never refuses an "
+              "integer-valued RBig, TryFrom<f32/f64> from `== 0.` and decode() on), the one-line wrappers (Neg/Abs/Inverse for values and references, "
+              "sqr/cubic/pow, split_at_point/ceil/floor/trunc/fract/round, sign, canonicalize/relax), third_party/num_traits.rs (Zero, One, Num, Signed, "
+              "Euclid, Pow forward to the inherent operations) and third_party/serde.rs (Deserialize refuses a zero denominator and reduces). "
+              "Histories now also contain the in-place forms, clone / clone_from into occupied slots, integers on the left (IBig and UBig, four "
+              "operators), UBig on the right and From<IBig> (C04_r4_history_*: invariant + exactness + Relaxed lock step for every finite history). "
               "All models are tied to the Rust code by a correspondence run judged by the extracted specification.")
-LEVEL_NOTE = ("Trusted: Coq kernel; tools/translate_c04_r3.py (its reading of the integer-layer atoms, listed in TRUSTED_BASE); the hand transcriptions of "
-              "from_parts_const, the parsers and convert.rs (tied by the correspondence run only); extraction incl. FastZ.v directives, zarith, the harness. "
+LEVEL_NOTE = ("Trusted: Coq kernel; tools/translate_c04_r3.py and tools/translate_c04_r4.py (their reading of the integer-layer atoms, listed in TRUSTED_BASE; "
+              "r4 normalises three text-handling idioms of parse.rs and two of the float conversion textually before parsing - any other shape is reported "
+              "`unparsed`); extraction incl. FastZ.v directives, zarith, the harness. Not modelled: the text scanning `src.find('/')` and the slicing itself "
+              "(parameters has_slash / piece), the integer parsers (C07/C16), f32/f64 decode (C06), the serde visitor that extracts the two integers from "
+              "the data format (only the zero test and the reduction that follow it), to_f32/to_f64/to_int (C06). third_party/num_traits.rs is proved over "
+              "the regenerated forwarding only: the shared harness is built without the num-traits feature, so those impls are not executed by the run. "
               "IBig/UBig enter through their Z-level specifications (+,-,*, truncating / and %, Euclidean forms, gcd, trailing_zeros, >>), which are "
               "C01/C02/C09/C12's subject; f32/f64 decode is C06's. rational/src/iter.rs is not a module of the crate (no Sum/Product to cover: "
               "re-read on every run, C04_iter_rs_is_not_a_module); there are no primitive-integer operand forms (only UBig/IBig: impl_binop_with_int).")
-TECHNIQUE = ("Coq proof over bodies regenerated from the Rust source: generated body = canonical exact rational + invariant (single operations and all "
-             "finite histories) + extracted-spec correspondence run")
+TECHNIQUE = ("Coq proof over bodies regenerated from the Rust source (straight-line bodies, one while loop as a fuelled iterator with a fuel lemma, "
+             "parsers parameterised by the integer parser): generated body = canonical exact rational + invariant (single operations and all finite "
+             "histories incl. in-place forms and clone_from) + extracted-spec correspondence run with per-row counters")
 RULE = ("cases = operation (every RBig and Relaxed operator in each value/reference/assign call form, Euclidean forms, integer-mixed "
         "forms both ways with UBig and IBig, neg/abs/signum/inv/sqr/cubic/pow/Sign product, from_parts/_signed/_const, canonicalize/relax, "
         "split/fract/trunc/floor/ceil/round, is_zero/is_one/is_int, From<integers>, TryFrom<f32/f64> over every float class, parsers with zero "
-        "denominators) x operands whose numerators and denominators are drawn from "
+        "denominators, texts whose pieces the integer parser refuses (NoDigits / InvalidDigit / UnsupportedRadix on either side), texts without '/', "
+        "equal / absent / different / broken radix prefixes, clone_from into an occupied slot (fraction / integer / zero on both sides; directly, "
+        "through Vec::clone_from and clone_from_slice), TryFrom<RBig/Relaxed> for IBig/UBig, serde Deserialize from the struct form (unreduced pair, "
+        "zero denominator) and the text form; first a sweep with one case per impl_binop_with_macro! / impl_binop_with_int! / "
+        "impl_binop_assign_by_taking! row (read from the source) and call form - the oracle names the row of each case, the evidence histogram "
+        "(path:*:ROW-gen_*) is the per-row counter) x operands whose numerators and denominators are drawn from "
         "word-count classes {0,1,2,3,4,5,8,T-1,T,T+1} x bit patterns x both signs, with common factors planted in all six positions "
         "(a-b, c-d, a-d, b-c, b-d, a-c), zero numerators, integers, equal / negated / reciprocal operands, exact ties of the centred "
         "remainder; histories = 1..40 operations over a pool of 4 values with results fed back (RBig and Relaxed in lock step, "
-        "panicking steps included). A case is non-trivial when the oracle evaluated the Coq specification on it; distinct = distinct case texts.")
+        "panicking steps included); hist4 = the same with += -= *= /= %= (value and reference operand; the slot after a panic is checked), "
+        "clone / clone_from between slots, IBig / UBig on the left with all four operators, UBig on the right, From<IBig>, the pools dumped at the end. A case is non-trivial when the oracle evaluated the Coq specification on it; distinct = distinct case texts.")
 EXPLANATION = ("Theorems (coq/props/C04.v): the C04_gen_* statements are about the definitions of coq/gen/RatioBodies.v, which "
                "tools/translate_c04_r3.py re-reads from rational/src on every run (an edited macro body, a re-wired invocation or a removed impl "
                "breaks a proof obligation; unparseable source is reported and falls back to the last good copy + correspondence run); the remaining "
                "statements are about the hand transcriptions in coq/theories/Ratio/RatArithModel.v, which are proved EQUAL to the generated bodies "
-               "(C04_gen_bodies_are_the_transcriptions). Tie to the code at run time: every implementation answer (numerator()/denominator() read "
+               "(C04_gen_bodies_are_the_transcriptions, C04_r4_from_parts_const_is_the_transcription, C04_r4_parsers_relaxed_are_the_transcription). "
+               "The C04_r4_* statements are about coq/gen/RatioBodies4.v (tools/translate_c04_r4.py, eight groups; evidence keys "
+               "TRANSLATOR_C04_R4:<group>:ok|unparsed). Tie to the code at run time: every implementation answer (numerator()/denominator() read "
                "through raw words) is compared with the extracted specification; RBig answers must be the canonical pair itself, Relaxed answers "
                "the same value with a positive denominator; the hand transcription AND the generated body (and, for Relaxed::from_parts, the "
                "64-bit word-level reduce2) must all predict the answer (model_fidelity).")
 TRUSTED_BASE = [
     "Coq 8.16.1 kernel (coqc, full .vo build); no axioms",
     "tools/translate_c04_r3.py (reuses the tokenizer/parser of tools/translate.py): reads rational/src/{repr,rbig,sign,round,add,mul,div,helper_macros,lib}.rs into coq/gen/RatioBodies.v at plug-in import. Hand-written semantics of the atoms: IBig/UBig + - * = Z.add/sub/mul, `/` = Z.quot and `%` = Z.rem (pure: the divisors are gcds / denominators, non-zero under the invariant), gcd = Z.gcd, is_zero/is_one = `=? 0/1`, sign() = sign_of, abs/unsigned_abs = Z.abs, signum = Z.sgn, `x * Sign` = x * sgnz, `-Sign` = sign_neg, into_parts = (sign_of, Z.abs), IBig::from_parts = signed, div_rem = (Z.quot, Z.rem), trailing_zeros = trailing_zeros_spec, >> << = Z.shiftr/shiftl, min = Z.min, sqr/cubic/pow = products / Z.pow, .into()/.clone()/& = identity, Repr {n, d} = the pair, RBig(..)/Relaxed(..) = Ok, panic_divide_by_0() = Panic DivideBy0, unwrap of None = Panic, the integer methods rem/rem_euclid/div_euclid/div_rem_euclid panic with DivideBy0 on a zero divisor (coq/theories/Ratio/RatioAtoms.v); `$impl!(a, b, c, d, ra, rb, rc, rd, $method)` passes references to the same values (checked syntactically; the ownership arms are C15's FormsRatGen)",
-    "hand transcription of from_parts_const (the while loop), parse.rs and convert.rs (From<integers>, TryFrom<f32/f64> from the decoded pair on) in coq/theories/Ratio/RatArithModel.v / RatioBodiesModel.v (compared with the code on every run, not regenerated); the f32/f64 bit decoding of the oracle driver (thin OCaml; decode itself is C06's subject)",
+    "tools/translate_c04_r4.py (extends the r3 compiler by while loops -> while_fuel, multi-variable updates, if/else-if statement chains, method-call statements, closures in .map, Ok/Err, match on a Result): reads rational/src/{repr,rbig,add,mul,div,sign,round,parse,convert}.rs and third_party/{num_traits,serde}.rs into coq/gen/RatioBodies4.v. Additional hand-written atoms (coq/theories/Ratio/RatioAtoms4.v): DoubleWord % / >> = Z.rem / Z.quot / Z.shiftr, u128::trailing_zeros = dw_trailing_zeros, IBig::from_parts_const = signed, UBig::from_dword / IBig::from / `as` casts = identity, set_bit = Z.setbit, x.clone_from(&y) assigns y to the place x, ParseError / ConversionError constructors = numeric codes; the integer parsers IBig::from_str_radix / from_str_with_radix_prefix / from_str_with_radix_default on `&src[..slash]`, `&src[slash + 1..]`, `src` are PARAMETERS (ip / ipp / ipd over piece) and `src.find('/')` is the parameter has_slash (textual normalisation of exactly these idioms); `value == 0.` and `value.decode()` of the float conversion are parameters; serde: only the zero-denominator test of deserialize_repr (checked to follow the visitor call) and the .map(reduce / reduce2) of Deserialize are read",
+    "the f32/f64 bit decoding of the oracle driver (thin OCaml; decode itself is C06's subject); the hand transcriptions in RatArithModel.v that remain are now all proved equal to regenerated bodies",
     "IBig/UBig operations are taken at their Z-level specification: Z.add/sub/mul, Z.quot/Z.rem, Euclidean div/rem, Z.gcd, trailing_zeros, Z.shiftr, Z.pow; the word-level reduce2 uses C09's kernels (Int/BitsKernels.v) for trailing_zeros and >>",
     "extraction: ExtrOcamlBasic + ExtrOcamlZBigInt + the Extract Constant directives of coq/extract/FastZ.v (Z.gcd/quot/rem/pow/log2/sgn -> zarith)",
     "OCaml 4.13.1 + zarith 1.12, oracle/common.ml, oracle/driver_c04.ml; Rust harness harness/src/bin/c04.rs (catch_unwind per history step)",
@@ -327,6 +409,188 @@ def gen_history(rng, tier):
 
 
 # ------------------------------------------------------------------------------------------------
+# round 4: histories with the in-place forms, clone / clone_from, integers on the left, UBig on the right, From<IBig>
+# ------------------------------------------------------------------------------------------------
+H4ASSIGN = {"adda": "add", "suba": "sub", "mula": "mul", "diva": "div", "rema": "rem"}
+H4LEFT = {"laddi": "addi", "lsubi": "isub", "lmuli": "muli", "ldivi": "idiv", "laddu": "addu", "lsubu": "isub", "lmulu": "mulu", "ldivu": "idiv"}
+H4RIGHTU = {"addu": "addu", "subu": "subi", "mulu": "mulu", "divu": "divu"}
+
+
+def gen_history4(rng, tier):
+    K = 4
+    limit = 3000 if tier == "quick" else 12000
+    small = rng.chance(2, 3)
+    init = []
+    for _ in range(K):
+        if small:
+            n, d = rng.range(-40, 40), rng.range(1, 40)
+        else:
+            n, d = grat(rng, tier)
+            if abs(n).bit_length() + d.bit_length() > limit // 2:
+                n, d = n % (1 << 300), (d % (1 << 300)) or 1
+        r = rng.below(6)
+        if r == 0:
+            d = 1                 # an integer: clone_from of an integer into a slot that holds a fraction
+        elif r == 1:
+            n = 0                 # zero
+        init.append((n, d))
+    pool = [Fraction(n, d) for n, d in init]
+    nsteps = rng.choice([1, 2, 3, 5, 8, 13, 20, 30])
+    toks = ["hist4", "%x" % K]
+    for n, d in init:
+        toks += [hx(n), hx(d)]
+    for _ in range(nsteps):
+        for attempt in range(6):
+            grp = rng.below(12)
+            i, j, dst = rng.below(K), rng.below(K), rng.below(K)
+            panics_inplace = False
+            if grp < 3:
+                op = rng.choice(sorted(H4ASSIGN)); arg = "%x" % j; val = _sim(H4ASSIGN[op], pool[i], pool[j], None); dst = i
+                panics_inplace = val is None
+            elif grp < 6:
+                op = rng.choice(["clone", "clonefrom", "clonefrom"]); arg = "0"; val = pool[i]
+                if rng.chance(1, 2):
+                    # make the interesting combination likely: destination holds a non-integer, source an integer or zero
+                    ints = [t for t in range(K) if pool[t].denominator == 1]
+                    fracs = [t for t in range(K) if pool[t].denominator != 1]
+                    if ints and fracs:
+                        i, dst = rng.choice(ints), rng.choice(fracs); val = pool[i]
+            elif grp < 9:
+                x = pool[i]
+                k = gintop(rng, tier, x.numerator, x.denominator) if rng.chance(2, 3) else rng.range(-12, 12)
+                if abs(k).bit_length() > limit // 2:
+                    k = rng.range(-12, 12)
+                op = rng.choice(sorted(H4LEFT) + sorted(H4RIGHTU))
+                if op.endswith("u"):
+                    k = abs(k)
+                arg = hx(k); val = _sim(H4LEFT.get(op) or H4RIGHTU[op], x, None, k)
+            elif grp == 9:
+                k = rng.choice([0, 1, -1, rng.range(-100, 100), gnum(rng, tier) % (1 << 200)])
+                op = "fromi"; arg = hx(k); val = Fraction(k)
+            elif grp == 10:
+                op = rng.choice(HBIN); arg = "%x" % j; val = _sim(op, pool[i], pool[j], None)
+            else:
+                op = rng.choice(HUN); arg = "0"; val = _sim(op, pool[i], None, None)
+            if val is None or abs(val.numerator).bit_length() + val.denominator.bit_length() <= limit:
+                break
+        else:
+            op, arg, val, panics_inplace = "signum", "0", _sim("signum", pool[i], None, None), False
+        toks += [op, "%x" % i, arg, "%x" % dst]
+        if val is not None:
+            pool[dst] = val
+        elif panics_inplace:
+            pool[dst] = Fraction(0)       # core::mem::take left Default behind
+    return " ".join(toks)
+
+
+def gen_rows_sweep(rng, tier):
+    """one case per operator row of add.rs / mul.rs / div.rs and call form (the rows are read from the source)"""
+    out = []
+    rows, _ = operator_rows()
+    for name, prefix, kind in rows:
+        if kind is None:
+            forms = FORMS4
+        elif kind == "assign":
+            forms = ["av", "ar"]
+        else:
+            forms = FORMS4
+        for form in forms:
+            a, b, c, d = gpair(rng, tier)
+            if kind in ("u", "i"):
+                i = gintop(rng, tier, a, b) or 3
+                if kind == "u":
+                    i = abs(i)
+                out.append("%s %s %s %s %s %s" % (prefix, form, kind, hx(a), hx(b), hx(i)))
+            else:
+                if c == 0:
+                    c = 1
+                out.append("%s %s %s %s %s %s" % (prefix, form, hx(a), hx(b), hx(c), hx(d)))
+    return out
+
+
+BAD_PIECES = [("@", "eN"), ("+", "eN"), ("-", "eN"), ("1x", "eI"), ("x", "eI"), ("1.5", "eI"), ("--1", "eI"), ("1-", "eI")]
+
+
+def gen_parse_edge(rng, tier, T):
+    """texts whose pieces the integer parser refuses, texts without '/', differing radix prefixes"""
+    n_, d_ = rng.range(-500, 500), rng.range(0, 60)
+    if rng.chance(1, 3):
+        n_, d_ = gnum(rng, tier) % (1 << 300), gmag(rng, tier) % (1 << 300)
+    k = rng.below(10)
+    if k < 3:
+        # no '/'
+        r = rng.below(4)
+        if r == 0:
+            text, nt = rng.choice(BAD_PIECES)
+            return "%sparse %s %s -" % (T, text, nt)
+        if r == 1:
+            radix = rng.choice([2, 7, 10, 16, 36])
+            return "%sparse_radix %x %s %s -" % (T, radix, fmt_radix(n_, radix), hx(n_))
+        if r == 2:
+            radix, pre = rng.choice([(2, "0b"), (8, "0o"), (16, "0x"), (10, "")])
+            return "%sparse_prefix %s%s%s %s - %x" % (T, "-" if n_ < 0 else "", pre, fmt_radix(abs(n_), radix), hx(n_), radix)
+        return "%sparse %s%d %s -" % (T, "+" if n_ >= 0 and rng.chance(1, 3) else "", n_, hx(n_))
+    if k < 6:
+        # a piece the integer parser refuses: the numerator's error wins, then the denominator's, then the zero denominator
+        bn, bd = rng.chance(1, 2), rng.chance(1, 2)
+        if not bn and not bd:
+            bn = True
+        tn, nn = rng.choice(BAD_PIECES) if bn else (str(n_), hx(n_))
+        td, dd = rng.choice(BAD_PIECES + [("2/3", "eI"), ("/", "eI")]) if bd else (str(d_), hx(d_))
+        return "%sparse %s/%s %s %s" % (T, tn, td, nn, dd)
+    if k == 6:
+        radix = rng.choice([0, 1, 37, 100])
+        return "%sparse_radix %x %d/%d eU eU" % (T, radix, abs(n_) % 2, 1)
+    if k == 7:
+        radix = rng.choice([2, 8, 3, 9])
+        return "%sparse_radix %x %s/%s eI %s" % (T, radix, fmt_radix(n_, radix) + "9", fmt_radix(d_, radix), hx(d_))
+    # radix prefixes: equal, absent on the denominator (inherits), different (refused), broken
+    PRE = [(2, "0b"), (8, "0o"), (16, "0x"), (10, "")]
+    (r1, p1), (r2, p2) = rng.choice(PRE), rng.choice(PRE)
+    d_ = d_ if rng.chance(5, 6) else 0
+    sn = ("-" if n_ < 0 else "") + p1 + fmt_radix(abs(n_), r1)
+    if k == 8:
+        if p2 == "":
+            # the denominator is read in the numerator's radix: choose digits valid there
+            return "%sparse_prefix %s/%s %s %s %x" % (T, sn, fmt_radix(d_, r1), hx(n_), hx(d_), r1)
+        return "%sparse_prefix %s/%s %s %s %x %x" % (T, sn, p2 + fmt_radix(d_, r2), hx(n_), hx(d_), r1, r2)
+    r = rng.below(3)
+    if r == 0:
+        return "%sparse_prefix %s/%s eN %s %x" % (T, rng.choice(["0x", "0b", "-0o", "@", "+"]), fmt_radix(d_, 10), hx(d_), 10)
+    if r == 1:
+        return "%sparse_prefix %s/%s %s eN %x" % (T, sn, rng.choice(["0x", "@", "-"]) if p1 else rng.choice(["@", "-"]), hx(n_), r1)
+    return "%sparse_prefix %s/%s %s eI %x" % (T, sn, "0xg", hx(n_), r1)
+
+
+def gen_new_op(rng, tier, T):
+    k = rng.below(10)
+    if k < 3:
+        # clone_from: every combination of (fraction | integer | zero) destination and source
+        def pick():
+            r = rng.below(3)
+            n, d = grat(rng, tier)
+            if r == 0:
+                return (n or 1, d if d != 1 else 3)
+            if r == 1:
+                return (n, 1)
+            return (0, d)
+        (dn, dd), (sn, sd) = pick(), pick()
+        return "%sclonefrom %s %s %s %s" % (T, hx(dn), hx(dd), hx(sn), hx(sd))
+    if k < 5:
+        n, d = grat(rng, tier)
+        if rng.chance(1, 2):
+            n = d * gnum(rng, tier)      # integer-valued
+        return "%stryint %s %s" % (T, hx(n), hx(d))
+    if k < 7:
+        n, d = grat(rng, tier)
+        n, d = n % (1 << 600) * (1 if n >= 0 else -1), d % (1 << 600)
+        if rng.chance(1, 5):
+            d = 0
+        return "%sserde %s %s %d/%d" % (T, hx(n), hx(d), n, d)
+    return gen_parse_edge(rng, tier, T)
+
+
+# ------------------------------------------------------------------------------------------------
 def const_pair(rng):
     """operands of from_parts_const (DoubleWord = u128): gcd loop exits with r = 0 or r = 1 after many / few steps"""
     k = rng.below(10)
@@ -390,8 +654,13 @@ def fbits(rng, single):
 
 def gen_cases(rng, tier, n):
     out = []
+    if n >= 1000:
+        out += gen_rows_sweep(rng, tier)
     while len(out) < n:
         T = rng.choice(["r", "r", "x"])
+        if rng.chance(1, 9):
+            out.append(gen_new_op(rng, tier, T))
+            continue
         k = rng.below(100)
         if k < 30:
             a, b, c, d = gpair(rng, tier)
@@ -492,6 +761,8 @@ def gen_cases(rng, tier, n):
                 sn = ("-" if n_ < 0 else "") + pre + fmt_radix(abs(n_), radix)
                 sd = ("-" if d_ < 0 else "") + (pre if rng.chance(1, 2) else "") + fmt_radix(abs(d_), radix)
                 out.append("%sparse_prefix %s/%s %s %s %x" % (T, sn, sd, hx(n_), hx(d_), radix))
-        else:
+        elif k < 94:
             out.append(gen_history(rng, tier))
+        else:
+            out.append(gen_history4(rng, tier))
     return out
